@@ -19,6 +19,7 @@ import os
 import vcheck as V
 
 PID = "C03"
+CRASHED = []
 ACTIONS = ["ChooseMode", "Fork", "ChooseTs", "ChooseProps", "ChooseCommits", "ChooseUncles"]
 SIMS = ["MC_ConsensusRules_simA.cfg", "MC_ConsensusRules_simB.cfg"]
 
@@ -135,8 +136,9 @@ def replay_contexts(c, ctxs, path):
         for i, rc, out in ex.map(lambda i: run_one(path, i, V.seed()), range(len(ctxs))):
             lines = V.parse_ndjson(out)
             if rc != 0 or not any("summary" in x for x in lines):
-                V.log(out[-3000:])
-                raise V.ToolError("c03 run failed on context %d rc=%d" % (i, rc))
+                # a crash inside the code under test is data: judge what was observed first, complain afterwards
+                V.log(out[-1500:])
+                CRASHED.append("c03 run failed on context %d rc=%d" % (i, rc))
             results[i] = lines
     return results
 
@@ -196,6 +198,9 @@ def judge(c, ctxs, results):
                             class_mismatch.append({"rule": p["rules"][0], "lab": p["lab"], "err": o["err"][:120]})
                 if p["verdict"] == "either":
                     stats["unspecified_" + got] += 1
+            elif "context_lost" in line:
+                complete = False
+                stats["contexts_lost"] += 1
             elif "branch_base" in line:
                 o = line["branch_base"]
                 if not o["ok"] or not o["tip_kept"]:
@@ -258,6 +263,10 @@ def run(tier):
                               "sides": ctx["sides"]},
                   "probes_at_tip": [{k: p[k] for k in ("fam", "lab", "verdict", "rules")} for p in ctx["probes"][-1][:6]]})
     if not c.violations:
+        if CRASHED:
+            raise V.ToolError("; ".join(CRASHED))
+        if stats["contexts_lost"]:
+            raise V.ToolError("%d contexts could not be restored after a probe" % stats["contexts_lost"])
         missing = [REQUIRED[n][0] for n in range(len(REQUIRED)) if covered[n] == 0]
         if missing:
             raise V.ToolError("vacuous run: rule boundaries never exercised: %s" % missing)
